@@ -244,108 +244,7 @@ impl Conn {
     /// Read one response.  `head` says that the request was HEAD (no body
     /// regardless of framing headers).
     pub async fn read_response(&mut self, head: bool, timeout: Duration) -> ReadOutcome {
-        let deadline = tokio::time::Instant::now() + timeout;
-        let mut eof = false;
-        loop {
-            // try to parse what we have
-            if !self.buf.is_empty() {
-                match parse_head(&self.buf) {
-                    Parse::Bad(m) => return ReadOutcome::Malformed(m, self.buf.clone()),
-                    Parse::NeedMore => {}
-                    Parse::Done(h, used) => {
-                        let te: Vec<String> = h
-                            .headers
-                            .iter()
-                            .filter(|(n, _)| n == "transfer-encoding")
-                            .map(|(_, v)| String::from_utf8_lossy(v).to_ascii_lowercase())
-                            .collect();
-                        let cl: Vec<String> = h
-                            .headers
-                            .iter()
-                            .filter(|(n, _)| n == "content-length")
-                            .map(|(_, v)| String::from_utf8_lossy(v).to_string())
-                            .collect();
-                        let no_body = head || h.status / 100 == 1 || h.status == 204 || h.status == 304;
-                        let rest = &self.buf[used..];
-                        let done: Parse<(Vec<u8>, bool)> = if no_body {
-                            Parse::Done((vec![], false), 0)
-                        } else if !te.is_empty() {
-                            if te.len() != 1 || te[0].trim() != "chunked" {
-                                Parse::Bad(format!("unsupported transfer-encoding {:?}", te))
-                            } else if !cl.is_empty() {
-                                Parse::Bad("both content-length and transfer-encoding".into())
-                            } else {
-                                match parse_chunked(rest) {
-                                    Parse::Done(b, n) => Parse::Done((b, true), n),
-                                    Parse::NeedMore => Parse::NeedMore,
-                                    Parse::Bad(m) => Parse::Bad(m),
-                                }
-                            }
-                        } else if !cl.is_empty() {
-                            if cl.iter().any(|c| c != &cl[0])
-                                || cl[0].is_empty()
-                                || !cl[0].bytes().all(|b| b.is_ascii_digit())
-                            {
-                                Parse::Bad(format!("bad content-length {:?}", cl))
-                            } else {
-                                match cl[0].parse::<usize>() {
-                                    Ok(n) if rest.len() >= n => Parse::Done((rest[..n].to_vec(), false), n),
-                                    Ok(_) => Parse::NeedMore,
-                                    Err(_) => Parse::Bad("content-length overflow".into()),
-                                }
-                            }
-                        } else if eof {
-                            Parse::Done((rest.to_vec(), false), rest.len())
-                        } else {
-                            Parse::NeedMore
-                        };
-                        match done {
-                            Parse::Bad(m) => return ReadOutcome::Malformed(m, self.buf.clone()),
-                            Parse::NeedMore => {
-                                if eof {
-                                    return ReadOutcome::Malformed(
-                                        "connection closed in the middle of a response body".into(),
-                                        self.buf.clone(),
-                                    );
-                                }
-                            }
-                            Parse::Done((body, chunked), n) => {
-                                self.buf.drain(..used + n);
-                                return ReadOutcome::Resp(RawResp {
-                                    status: h.status,
-                                    reason: h.reason,
-                                    headers: h.headers,
-                                    body,
-                                    chunked,
-                                });
-                            }
-                        }
-                    }
-                }
-            }
-            if eof {
-                if self.buf.is_empty() {
-                    return ReadOutcome::Closed(vec![]);
-                }
-                return ReadOutcome::Malformed(
-                    "connection closed in the middle of a response head".into(),
-                    self.buf.clone(),
-                );
-            }
-            let mut tmp = [0u8; 16384];
-            match tokio::time::timeout_at(deadline, self.stream.read(&mut tmp)).await {
-                Err(_) => return ReadOutcome::Timeout(self.buf.clone()),
-                Ok(Ok(0)) => eof = true,
-                Ok(Ok(n)) => self.buf.extend_from_slice(&tmp[..n]),
-                Ok(Err(_)) => {
-                    // reset by peer: treat like a close
-                    if self.buf.is_empty() {
-                        return ReadOutcome::Closed(vec![]);
-                    }
-                    eof = true;
-                }
-            }
-        }
+        read_response_from(&mut self.stream, &mut self.buf, head, timeout).await
     }
 
     /// read until EOF or timeout; returns the bytes and whether EOF was seen
@@ -373,6 +272,113 @@ impl Conn {
         let _ = self.stream.shutdown().await;
     }
 }
+
+/// Read one response from any byte stream (plain TCP or TLS).
+pub async fn read_response_from<S: tokio::io::AsyncRead + Unpin>(stream: &mut S, buf: &mut Vec<u8>, head: bool, timeout: Duration) -> ReadOutcome {
+    let deadline = tokio::time::Instant::now() + timeout;
+    let mut eof = false;
+    loop {
+        // try to parse what we have
+        if !buf.is_empty() {
+            match parse_head(&buf) {
+                Parse::Bad(m) => return ReadOutcome::Malformed(m, buf.clone()),
+                Parse::NeedMore => {}
+                Parse::Done(h, used) => {
+                    let te: Vec<String> = h
+                        .headers
+                        .iter()
+                        .filter(|(n, _)| n == "transfer-encoding")
+                        .map(|(_, v)| String::from_utf8_lossy(v).to_ascii_lowercase())
+                        .collect();
+                    let cl: Vec<String> = h
+                        .headers
+                        .iter()
+                        .filter(|(n, _)| n == "content-length")
+                        .map(|(_, v)| String::from_utf8_lossy(v).to_string())
+                        .collect();
+                    let no_body = head || h.status / 100 == 1 || h.status == 204 || h.status == 304;
+                    let rest = &buf[used..];
+                    let done: Parse<(Vec<u8>, bool)> = if no_body {
+                        Parse::Done((vec![], false), 0)
+                    } else if !te.is_empty() {
+                        if te.len() != 1 || te[0].trim() != "chunked" {
+                            Parse::Bad(format!("unsupported transfer-encoding {:?}", te))
+                        } else if !cl.is_empty() {
+                            Parse::Bad("both content-length and transfer-encoding".into())
+                        } else {
+                            match parse_chunked(rest) {
+                                Parse::Done(b, n) => Parse::Done((b, true), n),
+                                Parse::NeedMore => Parse::NeedMore,
+                                Parse::Bad(m) => Parse::Bad(m),
+                            }
+                        }
+                    } else if !cl.is_empty() {
+                        if cl.iter().any(|c| c != &cl[0])
+                            || cl[0].is_empty()
+                            || !cl[0].bytes().all(|b| b.is_ascii_digit())
+                        {
+                            Parse::Bad(format!("bad content-length {:?}", cl))
+                        } else {
+                            match cl[0].parse::<usize>() {
+                                Ok(n) if rest.len() >= n => Parse::Done((rest[..n].to_vec(), false), n),
+                                Ok(_) => Parse::NeedMore,
+                                Err(_) => Parse::Bad("content-length overflow".into()),
+                            }
+                        }
+                    } else if eof {
+                        Parse::Done((rest.to_vec(), false), rest.len())
+                    } else {
+                        Parse::NeedMore
+                    };
+                    match done {
+                        Parse::Bad(m) => return ReadOutcome::Malformed(m, buf.clone()),
+                        Parse::NeedMore => {
+                            if eof {
+                                return ReadOutcome::Malformed(
+                                    "connection closed in the middle of a response body".into(),
+                                    buf.clone(),
+                                );
+                            }
+                        }
+                        Parse::Done((body, chunked), n) => {
+                            buf.drain(..used + n);
+                            return ReadOutcome::Resp(RawResp {
+                                status: h.status,
+                                reason: h.reason,
+                                headers: h.headers,
+                                body,
+                                chunked,
+                            });
+                        }
+                    }
+                }
+            }
+        }
+        if eof {
+            if buf.is_empty() {
+                return ReadOutcome::Closed(vec![]);
+            }
+            return ReadOutcome::Malformed(
+                "connection closed in the middle of a response head".into(),
+                buf.clone(),
+            );
+        }
+        let mut tmp = [0u8; 16384];
+        match tokio::time::timeout_at(deadline, stream.read(&mut tmp)).await {
+            Err(_) => return ReadOutcome::Timeout(buf.clone()),
+            Ok(Ok(0)) => eof = true,
+            Ok(Ok(n)) => buf.extend_from_slice(&tmp[..n]),
+            Ok(Err(_)) => {
+                // reset by peer: treat like a close
+                if buf.is_empty() {
+                    return ReadOutcome::Closed(vec![]);
+                }
+                eof = true;
+            }
+        }
+    }
+}
+
 
 /// Build a request.  `Host` is added; `content-length` is added when
 /// `body` is `Some` and no framing header is among `headers`.
